@@ -413,25 +413,79 @@ class Exec:
             return v
         return z3.SignExt(bits - v.size(), v) if v.size() < bits else z3.Extract(bits - 1, 0, v)
 
+    def _leaves(self, bv, limit=24):
+        """decompose an ite-tree of addresses into [(condition, address)], distributing + over ite"""
+        out = []
+
+        def has_ite(e, depth=0):
+            if z3.is_app_of(e, z3.Z3_OP_ITE):
+                return True
+            if depth > 3 or not (z3.is_app_of(e, z3.Z3_OP_BADD) or z3.is_app_of(e, z3.Z3_OP_BSUB)):
+                return False
+            return any(has_ite(c, depth + 1) for c in e.children())
+
+        def walk(e, cond):
+            if len(out) > limit:
+                return
+            if z3.is_app_of(e, z3.Z3_OP_ITE):
+                c, a, b = e.children()
+                walk(a, cond + [c])
+                walk(b, cond + [z3.Not(c)])
+                return
+            if z3.is_app_of(e, z3.Z3_OP_BADD) or z3.is_app_of(e, z3.Z3_OP_BSUB):
+                ch = e.children()
+                for i, c in enumerate(ch):
+                    if has_ite(c):
+                        sub = []
+                        saved = list(out)
+                        del out[:]
+                        walk(c, [])
+                        sub, out[:] = list(out), saved
+                        for sc, leaf in sub:
+                            new = list(ch)
+                            new[i] = leaf
+                            rebuilt = new[0]
+                            for x in new[1:]:
+                                rebuilt = (rebuilt + x) if z3.is_app_of(e, z3.Z3_OP_BADD) else (rebuilt - x)
+                            walk(z3.simplify(rebuilt), cond + ([sc] if not z3.is_true(sc) else []))
+                        return
+            out.append((z3.And(*cond) if cond else z3.BoolVal(True), e))
+        walk(z3.simplify(bv), [])
+        return out if 0 < len(out) <= limit else [(z3.BoolVal(True), bv)]
+
     def _candidates(self, p, guard, what, fn):
         """[(region, condition, offset BV64)] for a dereference; emits NULL / wild-pointer obligations"""
-        regs = [self.regions[r] for r in p.regions if r != 0 and r in self.regions]
         hi = z3.simplify(z3.Extract(63, REGION_SHIFT, p.bv))
-        out = []
         if z3.is_bv_value(hi):
             rid = hi.as_long()
             r = self.regions.get(rid)
             if r is None or (rid not in p.regions and p.regions):
-                self.ub.append((guard, '%s through a pointer into no known region (%s)' % (what, z3.simplify(p.bv)), fn))
+                self.ub.append((guard, '%s through NULL or a pointer into no known object (%s)' % (what, z3.simplify(p.bv)), fn))
                 return []
             return [(r, z3.BoolVal(True), z3.simplify(p.bv - z3.BitVecVal(r.base, 64)))]
-        conds = []
-        for r in regs:
-            c = hi == z3.BitVecVal(r.id, 64 - REGION_SHIFT)
-            out.append((r, c, z3.simplify(p.bv - z3.BitVecVal(r.base, 64))))
-            conds.append(c)
-        self.ub.append((z3.And(guard, z3.Not(z3.Or(*conds)) if conds else z3.BoolVal(True)),
-                        '%s through NULL or a pointer outside its objects' % what, fn))
+        out = []
+        bad = []
+        for cond, leaf in self._leaves(p.bv):
+            lh = z3.simplify(z3.Extract(63, REGION_SHIFT, leaf))
+            if z3.is_bv_value(lh):
+                r = self.regions.get(lh.as_long())
+                if r is None or lh.as_long() == 0:
+                    bad.append(cond)
+                else:
+                    out.append((r, cond, z3.simplify(leaf - z3.BitVecVal(r.base, 64))))
+            else:
+                # address of unknown shape: fall back to the may-point-to set
+                conds = []
+                for rid in p.regions:
+                    if rid == 0 or rid not in self.regions:
+                        continue
+                    r = self.regions[rid]
+                    c = z3.And(cond, lh == z3.BitVecVal(r.id, 64 - REGION_SHIFT))
+                    out.append((r, c, z3.simplify(leaf - z3.BitVecVal(r.base, 64))))
+                    conds.append(lh == z3.BitVecVal(r.id, 64 - REGION_SHIFT))
+                bad.append(z3.And(cond, z3.Not(z3.Or(*conds)) if conds else z3.BoolVal(True)))
+        if bad:
+            self.ub.append((z3.And(guard, z3.Or(*bad)), '%s through NULL or a pointer outside its objects' % what, fn))
         return out
 
     def _bounds(self, r, off, n, guard, what, fn):
@@ -887,7 +941,13 @@ class Exec:
                 self._define(env, k, v, g)
             for ins in inss[i:]:
                 self.stats['ins'] += 1
-                g = self.step(fn, node, ins, env, g, nodes, nguard, eguard, rets, depth, exceeded_from)
+                try:
+                    g = self.step(fn, node, ins, env, g, nodes, nguard, eguard, rets, depth, exceeded_from)
+                except Unsupported as e:
+                    if not getattr(e, 'located', False):
+                        e.args = ('%s  [at %s:%s: %s]' % (e.args[0] if e.args else '', name, label, ins.text[:140]),)
+                        e.located = True
+                    raise
                 if g is None:
                     break
         self._cur_preds = saved_preds
